@@ -216,7 +216,7 @@ impl Sub for SmallDic {
     }
     fn rule(&self) -> String {
         "TrainSpec with K = 1-10 BIGRAM templates (so the dual connector's <8, 8 and >8 cases occur), trained, then matrix.def and bigram.left/right/cost emitted and compiled into three dictionaries (matrix, raw, dual) with the emitted lexicon; \
-         oracle (differential with derived tolerance): for EVERY id pair incl. id 0, |bigram cost − matrix cost| ≤ K+1 for raw and dual; numbers of left/right ids equal across the three; every id used in lex.csv/unk.def inside them; \
+         oracle (differential with derived tolerance): for EVERY id pair incl. id 0, |bigram cost − matrix cost| ≤ K+1 for the raw connector and, wherever every partial sum over template positions fits 16 bits (C07's proviso), for the dual connector; numbers of left/right ids equal across the three; every id used in lex.csv/unk.def inside them; \
          non-trivial = a pair with non-zero cost in both representations and a BOS or EOS pair with non-zero cost; distinct = hash(matrix.def, bigram files)".into()
     }
     fn check(&self, spec: &TrainSpec, ctx: &mut Ctx) -> Result<(), String> {
@@ -238,6 +238,25 @@ impl Sub for SmallDic {
             .map_err(|e| format!("matrix dictionary does not compile: {e}"))?;
         let (ml, mr, mc) = all_costs(&dm);
         let mut nontrivial = false;
+        // Reference reading of the emitted bigram files: where a partial sum over template positions can leave
+        // 16 bits, the dual connector's pre-summed part may be clamped — C07 limits the dual connector's exactness
+        // to sums that fit, and which templates are pre-summed depends on hash order, so such a pair can agree in one
+        // process and differ in the next. C16's dual clause is read with C07's proviso: those pairs are asserted for the
+        // raw connector only (counted; DESIGN 9).
+        let emitted = crate::gen::bigram::BigramModel {
+            right_rows: bg.right.lines().map(|l| crate::gen::csv::split_record(l.split_once('\t').map_or("", |x| x.1))).collect(),
+            left_rows: bg.left.lines().map(|l| crate::gen::csv::split_record(l.split_once('\t').map_or("", |x| x.1))).collect(),
+            costs: bg
+                .cost
+                .lines()
+                .filter_map(|l| {
+                    let (f, c) = l.rsplit_once('\t')?;
+                    let (a, b) = f.split_once('/')?;
+                    Some((a.to_string(), b.to_string(), c.parse::<i32>().ok()?))
+                })
+                .collect(),
+        };
+        let fits16 = crate::refmodel::RefConn::from_bigram(&emitted).fits16;
         for dual in [false, true] {
             let db = guard(|| {
                 vibrato::SystemDictionaryBuilder::from_readers_with_bigram_info(
@@ -262,6 +281,10 @@ impl Sub for SmallDic {
                 for l in 0..ml {
                     ctx.eval();
                     let (a, b) = (i64::from(bc[r * ml + l]), i64::from(mc[r * ml + l]));
+                    if dual && !fits16.get(r).and_then(|row| row.get(l)).copied().unwrap_or(true) {
+                        ctx.count("dual_pairs_not_asserted_partial_sum_beyond_16_bits", 1);
+                        continue;
+                    }
                     if (a - b).abs() > k + 1 {
                         return Err(format!(
                             "cost(right {r}, left {l}): bigram files give {a} (dual={dual}), matrix.def gives {b}; K={k} allows a difference of {}; bigram.cost={:?}",
@@ -309,6 +332,7 @@ pub fn run_c16(opts: &Opts) -> Report {
     let mut rep = Report::new("C16", "exploration");
     rep.assumptions = vec![
         "tolerance K+1 is derived (one truncation per template plus one for the matrix cell), not tuned".into(),
+        "the dual connector is asserted only where every partial sum of the emitted costs fits 16 bits (C07's proviso; its template split depends on hash order)".into(),
         "small models only (every case includes a CRF training run)".into(),
     ];
     let a = SmallDic;
